@@ -84,6 +84,7 @@ type procWrap struct {
 	e      *env
 	in     store
 	compat *compatData
+	n      *node
 }
 
 type compatData struct {
@@ -136,6 +137,9 @@ func (p *procWrap) Reorg(ctx context.Context, first uint64) error {
 		after, err2 := p.in.rows(ctx)
 		if err1 != nil || err2 != nil {
 			return tr.M{"from": first, "ok": false, "rows": 0, "err": "cannot read rows: " + errStr(err1) + errStr(err2)}, err
+		}
+		if err == nil {
+			p.n.expectGen() // handleReorg is followed by `goto reset`
 		}
 		return tr.M{"from": first, "ok": err == nil, "rows": len(before) - len(after), "err": errStr(err)}, err
 	})
@@ -398,6 +402,24 @@ type node struct {
 	syncDone chan struct{}
 	mu       gosync.Mutex
 	gens     []*gen
+	// the driver starts a downloader when Sync starts and after every Reorg it has processed: until it has done so (or a
+	// generous time has passed) the node is not considered at rest
+	wantGens int
+	wantAt   time.Time
+}
+
+func (n *node) expectGen() {
+	n.mu.Lock()
+	defer n.mu.Unlock()
+	n.wantGens++
+	n.wantAt = time.Now()
+}
+
+// genPending: a downloader start is due and may still come
+func (n *node) genPending(grace time.Duration) bool {
+	n.mu.Lock()
+	defer n.mu.Unlock()
+	return len(n.gens) < n.wantGens && time.Since(n.wantAt) < grace
 }
 
 func (n *node) addGen(g *gen) {
@@ -462,12 +484,13 @@ func startNode(e *env, cfg nodeCfg) (*node, error) {
 		cancel()
 		return nil, fmt.Errorf("NewEVMDownloader: %w", err)
 	}
-	drv, err := sync.NewEVMDriver(&detWrap{rd: rd, n: n}, &procWrap{e: e, in: cfg.st, compat: cfg.compat},
+	drv, err := sync.NewEVMDriver(&detWrap{rd: rd, n: n}, &procWrap{e: e, in: cfg.st, compat: cfg.compat, n: n},
 		&dlWrap{real: dl, n: n}, syncerID, cfg.buf, rh, true)
 	if err != nil {
 		cancel()
 		return nil, fmt.Errorf("NewEVMDriver: %w", err)
 	}
+	n.expectGen()
 	go func() {
 		defer close(n.syncDone)
 		defer func() {
